@@ -50,9 +50,17 @@ pub fn query() -> impl Strategy<Value = Option<String>> {
     prop::option::weighted(0.8, prop::collection::vec(query_piece(), 0..6).prop_map(|v| v.join("&")))
 }
 
+/// header values are carried in the case as strings of characters <= U+00FF; character c stands for byte c
+/// (obs-text bytes 0x80-0xFF are legal in a field value)
+pub fn value_bytes(v: &str) -> Vec<u8> {
+    v.chars().map(|c| c as u32 as u8).collect()
+}
+
 pub fn header_value() -> impl Strategy<Value = String> {
     prop_oneof![
         4 => "[!-~]{0,12}",
+        2 => "[!-~\\x{80}-\\x{ff}]{1,10}",
+        1 => "[\\x{a0}\\x{85}]{1,2}[!-~]{1,6}[\\x{a0}\\x{85}]{0,2}",
         3 => "[ \t]{0,2}[!-~][ -~]{0,10}[!-~][ \t]{0,2}",
         1 => Just("True ".to_string()),
         1 => Just(String::new()),
@@ -136,7 +144,7 @@ fn target_of(c: &Case) -> String {
 fn build_parts(method: &str, target: &str, headers: &[(String, String)]) -> Option<http::request::Parts> {
     let mut b = http::Request::builder().method(method).uri(target);
     for (n, v) in headers {
-        b = b.header(n.as_str(), http::HeaderValue::from_bytes(v.as_bytes()).ok()?);
+        b = b.header(n.as_str(), http::HeaderValue::from_bytes(&value_bytes(v)).ok()?);
     }
     Some(b.body(()).ok()?.into_parts().0)
 }
@@ -147,7 +155,7 @@ fn agent_canon(method: &str, target: &str, headers: &[(String, String)], body: &
 }
 
 fn hdr_bytes(headers: &[(String, String)]) -> Vec<(String, Vec<u8>)> {
-    headers.iter().map(|(n, v)| (n.clone(), v.as_bytes().to_vec())).collect()
+    headers.iter().map(|(n, v)| (n.clone(), value_bytes(v))).collect()
 }
 
 /// the agent's documented collapse (map keyed by lower(key)+value): used only to *name* that finding
